@@ -1,0 +1,29 @@
+//go:build verif
+
+package rng
+
+// Contracts for rng.go and seed.go. Comment-only: read by the verifier in /verif/govc.
+//
+//@ func (rng *RNG) IntBetween(lowerBound int, upperBound int) (res int)
+//@   arith    checked
+//@   requires rng != nil && rng.source != nil
+//@   requires "ordered": lowerBound <= upperBound
+//@   requires "span-fits": upperBound - lowerBound < 9223372036854775807
+//@   ensures  "in-range": lowerBound <= res && res <= upperBound
+//
+//@ func (rng *RNG) Float() (res float64)
+//@   requires rng != nil && rng.source != nil
+//@   ensures  "unit-interval": !isNaN(res) && 0.0 <= res && res < 1.0
+//
+//@ func toRadix36(r rune) (v int64, err error)
+//@   arith    checked
+//@   ensures  "error-iff-bad-rune": (err == nil) == (('0' <= r && r <= '9') || ('a' <= r && r <= 'z'))
+//@   ensures  "digit-value": err == nil ==> 0 <= v && v < 36 && v == (r <= '9' ? r - '0' : r - 'a' + 10)
+//
+//@ func toRune(value int64) (res rune)
+//@   arith    checked
+//@   ensures  "inverse-of-toRadix36": 0 <= value && value < 36 ==> ((res <= '9' ? res - '0' : res - 'a' + 10) == value && (('0' <= res && res <= '9') || ('a' <= res && res <= 'z')))
+//
+//@ func seedToInt64(seed string) (res int64, err error)
+//@   arith    wrap
+//@   ensures  "total": true
